@@ -5,6 +5,7 @@ import (
 	"go/ast"
 	"go/token"
 	"path/filepath"
+	"sort"
 	"strconv"
 	"strings"
 )
@@ -946,6 +947,41 @@ func genActions(c *ctx, s *schema, which string, g *ygrammar, gf *ast.File) {
 			}
 		}
 	}
+	roleSet := map[string]bool{} // "Kind.Field\x00symbol"
+	for _, ci := range cases {
+		for _, p := range ci.paths {
+			for _, o := range p.objs {
+				if !strings.HasPrefix(o.typ, "ast.") {
+					continue
+				}
+				for f, v := range o.fields {
+					if v.kind == "ref" && v.ref.Comp == 0 && v.ref.I >= 1 && v.ref.I <= len(ci.prod.Rhs) {
+						sym := ci.prod.Rhs[v.ref.I-1]
+						if _, isTok := g.TokenType[sym]; isTok || strings.HasPrefix(sym, "'") {
+							roleSet[strings.TrimPrefix(o.typ, "ast.")+"."+f+"\x00"+sym] = true
+						}
+					}
+				}
+			}
+		}
+	}
+	var roleKeys []string
+	for r := range roleSet {
+		roleKeys = append(roleKeys, r)
+	}
+	sortStrings(roleKeys)
+	var roleRows []string
+	for _, rk := range roleKeys {
+		sp := strings.SplitN(rk, "\x00", 2)
+		var ds []string
+		for _, d := range c.printerDefaults[sp[0]] {
+			ds = append(ds, fmt.Sprintf("%q", strings.ToLower(d)))
+		}
+		if len(ds) == 0 {
+			continue // the printer has no default for this field: nothing to compare
+		}
+		roleRows = append(roleRows, fmt.Sprintf("(%q, %q, [%s])", sp[0], sp[1], strings.Join(ds, ", ")))
+	}
 	for _, ci := range cases {
 		pn, prod := ci.pn, ci.prod
 		a.n = len(prod.Rhs)
@@ -1205,7 +1241,11 @@ func genActions(c *ctx, s *schema, which string, g *ygrammar, gf *ast.File) {
 		names = append(names, nm)
 	}
 	fmt.Fprintf(&b, "def paths%s : List PathSum := %s\n", sfx, strings.Join(names, " ++ "))
+	// (node kind.field, terminal stored there by some action, the lower-cased default lexemes the printer has for that field)
+	fmt.Fprintf(&b, "def tokenRoles%s : List (String × String × List String) := [\n  %s]\n", sfx, strings.Join(roleRows, ",\n  "))
 	b.WriteString("\nend PhpVerif.Gen\n")
 	writeIfChanged(filepath.Join(c.out, "Actions"+sfx+".lean"), b.String())
 	c.side["actions"+sfx] = sums
 }
+
+func sortStrings(x []string) { sort.Strings(x) }
